@@ -12,7 +12,7 @@ package timeouts
 //@ use @verif/specs/stdlib.spec:stdlib
 //@ use @verif/specs/stdlib.spec:casket_api
 
-//@ unit timeouts_setup props=C17 filter=`timeouts\.setupTimeouts$`
+//@ unit timeouts_setup frames=on props=C17 filter=`timeouts\.setupTimeouts$`
 //@ // "the strictest of the values the sites configure" needs every configured value recorded: each occurrence of the
 //@ // directive is either read as a block (at least one entry) or parsed in its plain one-argument form, or the load
 //@ // is rejected; none is skipped. Ghost protocol over the token cursor API: between two c.Next() calls a block entry
@@ -26,7 +26,7 @@ package timeouts
 //@ extern time.ParseDuration
 //@ func setupTimeouts
 //@   requires c != nil && occurrences == 0 && blockEntries == 0 && plainForms == 0
-//@   modifies ghost:occurrences, ghost:blockEntries, ghost:plainForms, Dispenser.cursor, Dispenser.nesting, SiteConfig.Timeouts
+//@   modifies ghost:occurrences, ghost:blockEntries, ghost:plainForms, Dispenser.cursor, Dispenser.nesting, SiteConfig.Timeouts, Timeouts.IdleTimeout, Timeouts.IdleTimeoutSet, Timeouts.ReadHeaderTimeout, Timeouts.ReadHeaderTimeoutSet, Timeouts.ReadTimeout, Timeouts.ReadTimeoutSet, Timeouts.WriteTimeout, Timeouts.WriteTimeoutSet
 //@   at call (*Dispenser).Next assert [no_occurrence_skipped] occurrences == 0 || blockEntries + plainForms >= 1
 //@   at call (*Dispenser).Next do occurrences = occurrences + 1
 //@   at call (*Dispenser).Next do blockEntries = 0
